@@ -153,6 +153,21 @@ def run(ctx):
                 vals = tuple(special if i == k else float(v) for i, v in enumerate(x.parameter_values))
                 ctx.dist["hash-equal sibling"] += 1
                 one_individual(ctx, EVQEIndividual(x.n_qubits, x.layers, vals), rng)
+    # deep individuals: appending zero layers when the new layer ids cross the decimal boundaries 100 / 1000 of the (zero-padded) parameter names —
+    # the values of the existing layers must stay bound to their own gates
+    for nl in [rng.randint(98, 100), rng.randint(998, 1000)] + ([rng.randint(9995, 10000)] if ctx.thorough() else []):
+        nq = rng.randint(1, 2)
+        iseed = rng.randrange(2**31)
+        x = EVQEIndividual.random_individual(nq, nl, True, iseed)
+        seed = rng.randrange(2**31)
+        y = EVQEIndividual.add_random_layers(x, rng.randint(2, 3), False, seed)
+        req = {"deep_zero_append": {"n_qubits": nq, "n_layers": nl, "individual_seed": iseed, "appended": len(y.layers) - nl, "seed": seed}}
+        ctx.case(req, True, tags=["add", "deep-zero-append", f"layers:{'10000' if nl > 5000 else '1000' if nl > 500 else '100'}"])
+        if not G.unitary_equiv(x.get_quantum_circuit(), y.get_quantum_circuit()):
+            ctx.violate("appending zero-initialised layers changes the unitary", req, None, key="C16:add:unitary")
+        z = EVQEIndividual.remove_layers(y, len(y.layers) - nl)
+        if G.indiv_struct(z) != G.indiv_struct(x) or not G.unitary_equiv(x.get_quantum_circuit(), z.get_quantum_circuit()):
+            ctx.violate("remove_layers(k) does not undo add_random_layers(k)", req, None, key="C16:remove-add")
     # the repaired finding F6: 1-qubit individual [Rot],[Id],[Rot]
     x = EVQEIndividual.random_individual(1, 3, True, 0)
     one_individual(ctx, x, rng)
@@ -162,6 +177,14 @@ def replay(ctx, case):
     import random
 
     inp = case.get("case", case).get("input", case.get("input"))
+    if "deep_zero_append" in inp:
+        d = inp["deep_zero_append"]
+        x = EVQEIndividual.random_individual(d["n_qubits"], d["n_layers"], True, d["individual_seed"])
+        y = EVQEIndividual.add_random_layers(x, d["appended"], False, d["seed"])
+        ctx.case(inp, True, tags=["replay"])
+        if not G.unitary_equiv(x.get_quantum_circuit(), y.get_quantum_circuit()):
+            ctx.violate("appending zero-initialised layers changes the unitary", inp, None, key="C16:add:unitary")
+        return
     xj = inp["indiv"]
     x = EVQEIndividual(xj["n"], tuple(G.layer_obj(l) for l in xj["layers"]), tuple(float(v) for v in xj["values"]))
     one_individual(ctx, x, random.Random(0))
